@@ -1247,7 +1247,7 @@ def tasks(tier):
     return [
         # round 3: the new kinds (8 of 29 function kinds, 3 of 7 operator kinds, 2 of 8 nesting targets) come on top of the former
         # numbers of examples of the other kinds (520 / 2000)
-        Task("nesting", machine=machine, run=run_nesting, examples={"quick": 2600, "thorough": 16000},
+        Task("nesting", machine=machine, run=run_nesting, examples={"quick": 2200, "thorough": 16000},
              steps={"quick": 14, "thorough": 24}),
         Task("sharedmem", strategy=sharedmem_st(tier), run=run_sharedmem, examples={"quick": 120, "thorough": 1200}),
         Task("reassign_linop", strategy=reassign_linop_st(tier), run=run_reassign_linop, examples={"quick": 100, "thorough": 1000}),
@@ -1256,5 +1256,5 @@ def tasks(tier):
         # round 4: two thin corners of the scenario space as small tasks of their own (see scenario_st), taken out of the budget of `faults`
         Task("faults_dbgflag", strategy=scenario_st(tier, focus="dbgflag"), run=run_faults, examples={"quick": 40, "thorough": 600}),
         Task("faults_dtypes", strategy=scenario_st(tier, focus="dtypes"), run=run_faults, examples={"quick": 40, "thorough": 600}),
-        Task("faults", strategy=scenario_st(tier), run=run_faults, examples={"quick": 600, "thorough": 9000}),
+        Task("faults", strategy=scenario_st(tier), run=run_faults, examples={"quick": 460, "thorough": 9000}),
     ]
